@@ -346,6 +346,8 @@ fn payloads_fixed(x: &W16, c: C, a: &Addr) -> Vec<Payload> {
             p("UpdateConfig", 0, json!({"update_config": {"owner": null, "vault_factory_addr": null}}), vec![]),
             p("UpdateConfig", 1, json!({"update_config": {"owner": null, "vault_factory_addr": me}}), vec![]),
             p("NextLoan", 0, json!({"next_loan": {"initiator": me, "source_vault": w.vault.to_string(), "source_vault_asset_info": nat("uwhale"), "payload": [], "to_loan": [], "loaned_assets": []}}), vec![]),
+            // the caller names ITSELF as the source vault of an asset that does have a registered vault
+            p("NextLoan", 3, json!({"next_loan": {"initiator": me, "source_vault": me, "source_vault_asset_info": nat("uwhale"), "payload": [], "to_loan": [], "loaned_assets": []}}), vec![]),
             p("CompleteLoan", 0, json!({"complete_loan": {"initiator": me, "loaned_assets": []}}), vec![]),
         ],
         C::Collector => vec![
